@@ -106,7 +106,7 @@ def run(module, cfg=None, env=None, workers=1, heap='3g', timeout=3600,
         return res
     if proc.returncode == 0 and 'Error:' not in out:
         return res
-    if ('is violated' in out or 'Temporal properties were violated' in out
+    if ('is violated' in out or 'Temporal properties were violated' in out or 'was violated' in out
             or 'Deadlock reached' in out):
         res.violation = out
         if allow_violation:
